@@ -30,8 +30,13 @@ BUDGET = {
 @st.composite
 def _case(draw, tier):
     big = tier != "quick"
-    fam = draw(st.sampled_from(["any", "any", "solid", "single"]))
-    if fam == "solid":
+    fam = draw(st.sampled_from(["any", "any", "solid", "single", "mpas"]))
+    radius = 1.0
+    if fam == "mpas":
+        # a source that supplies its own areas (areaCell, in the units of its sphere radius)
+        mesh = draw(meshgen.voronoi_mesh(14, 30 if big else 22, renumber=False))
+        radius = draw(st.sampled_from([1.0, 6371229.0]))
+    elif fam == "solid":
         mesh = draw(meshgen.solid_mesh_st())
     elif fam == "single":
         mesh = draw(meshgen.hull_mesh(4, 10, partial=True))
@@ -47,10 +52,12 @@ def _case(draw, tier):
     c = {
         "mesh": mesh,
         "mode": mode,
-        "rule": draw(st.sampled_from([("triangular", 4)] + RULES)),
+        "rule": draw(st.sampled_from([("triangular", 4)] * (6 if fam == "mpas" else 1) + RULES)),
         "history": draw(st.lists(st.sampled_from(RULES), max_size=2)),
         "coef": [draw(st.integers(-3, 3)), draw(st.integers(-3, 3))],
         "name": draw(st.sampled_from(["psi", "v", None])),
+        "source": "mpas" if fam == "mpas" else "topology",
+        "radius": radius,
     }
     if mode == "face":
         c["data"] = draw(datagen.data_spec(nf, vmax=8))
@@ -78,10 +85,22 @@ def classify(case):
     return labs, (bool(case["data"]["lead"]) or bool(coincide) or not default or bool(case["history"]))
 
 
+def _make(case):
+    if case.get("source") == "mpas":
+        from .. import writers
+
+        ds, _ = writers.mpas_dataset(case["mesh"], radius=case.get("radius", 1.0))
+        return build.ux().open_grid(ds)
+    return build.grid_from_mesh(case["mesh"])
+
+
 def run_case(case, ctx):
+    from .. import facegen
+    from .. import sphere as S
+
     ux = build.ux()
     mesh = case["mesh"]
-    g = build.grid_from_mesh(mesh)
+    g = _make(case)
     rule, order = tuple(case["rule"])
     fails = []
     spec = case["data"]
@@ -99,14 +118,19 @@ def run_case(case, ctx):
         fails.append(Failure("rejects_non_face", site, "returned", f"integrate() of {case['mode']}-dimensioned data returned {np.asarray(r.values).ravel()[:3]} ({sizes})"))
         return fails
 
-    da, arr = datagen.uxda(g, spec, "n_face", g.n_face, name=case["name"], with_coords=True)
+    da, arr_live = datagen.uxda(g, spec, "n_face", g.n_face, name=case["name"], with_coords=True)
+    arr = np.array(arr_live, copy=True)  # the expectation is computed from a private copy of the data
     # history of earlier calls on the same grid
     for hr, ho in [tuple(h) for h in case["history"]]:
         da.integrate(hr, ho)
     res = da.integrate(rule, order)
-    site = "after-history" if case["history"] else "first-call"
+    site = ("after-history" if case["history"] else "first-call") + (":mpas" if case.get("source") == "mpas" else "")
+    ctx.ev("input_unchanged")
+    if not np.array_equal(np.asarray(da.values), arr, equal_nan=True) or not np.array_equal(arr_live, arr, equal_nan=True):
+        fails.append(Failure("input_unchanged", site, "data-modified", f"integrate() changed the variable it was called on: {np.asarray(da.values).ravel()[:4]} vs {arr.ravel()[:4]}"))
+        return fails
     # reference areas from a fresh grid
-    fresh = build.grid_from_mesh(mesh)
+    fresh = _make(case)
     areas = np.asarray(fresh.compute_face_areas(rule, order)[0], float)
     lead = tuple(spec["lead"])
     rtol = 1e-5 if spec["dtype"] == "float32" else 1e-12
@@ -127,6 +151,26 @@ def run_case(case, ctx):
     tot = float(ones.integrate(rule, order).values)
     if abs(tot - float(areas.sum())) > 1e-12 * float(areas.sum()):
         fails.append(Failure("ones_is_total_area", site, "wrong", f"{tot!r} vs sum of areas {areas.sum()!r}"))
+    # ... and the total must be the area of the faces on the unit sphere (exact spherical excess; the tolerance follows
+    # C05's accuracy classes), whatever areas the source may have supplied in its own units
+    xyz = meshgen.mesh_xyz(mesh)
+    TOLC = {"<=10deg": 1e-6, "<=30deg": 1e-4, "<=65deg": 1e-2}
+    ex, tl = 0.0, 0.0
+    mask = np.zeros(g.n_face)
+    for fi, f in enumerate(mesh["faces"]):
+        vs = [tuple(xyz[i]) for i in f]
+        t = TOLC.get(facegen.size_class(vs)) if S.is_strictly_convex(vs, 1e-9) else None
+        if t is None:
+            continue  # no accuracy is claimed for faces > 65 degrees across or non-convex ones (C05)
+        mask[fi] = 1.0
+        a_f = S.poly_area(vs)
+        ex += a_f
+        tl += (t if order >= 4 else 0.2) * a_f
+    if mask.any():
+        ctx.ev("total_is_spherical_area")
+        part = float(ux.UxDataArray(mask, dims=["n_face"], uxgrid=g, name="m").integrate(rule, order).values)
+        if abs(part - ex) > tl + 1e-12:
+            fails.append(Failure("ones_is_total_area", site, "not-the-spherical-area", f"the indicator of {int(mask.sum())} faces integrates to {part!r}, these faces cover {ex!r} steradians (tolerance {tl:.3g})"))
     tot2 = float(g.calculate_total_face_area(rule, order))
     if abs(tot - tot2) > 1e-12 * abs(tot2):
         fails.append(Failure("ones_is_total_area", "calculate_total_face_area", "differs", f"{tot!r} vs {tot2!r}"))
